@@ -1,6 +1,6 @@
 CONSTANTS
   MaxAlign = 16
-  Sizes = {0, 1, 2, 3, 8, 24, 64}
+  Sizes = {1, 2, 3, 8, 24, 64}
   Aligns = {1, 2, 4, 8, 16}
   Caps = {0, 4, 16}
   MaxAllocs = 4
